@@ -1556,7 +1556,13 @@ _STRUCT = {
 
 
 def _struct_call(func, args, kwargs):
-    vd = _result_vd(args)
+    # virtual dtype from the data operands only (never from index / repeat-count arguments)
+    if func is numpy.insert:
+        vd = _result_vd([args[0]] + ([args[2]] if len(args) > 2 and isinstance(args[2], (SymArray, _nd)) else []))
+    elif func is numpy.append:
+        vd = _result_vd([args[0]] + ([args[1]] if len(args) > 1 and isinstance(args[1], (SymArray, _nd)) else []))
+    else:
+        vd = _result_vd([args[0]])
     if vd != _OBJ:
         fv = _first_vd(args)
         # keep a single shared virtual dtype when all operands agree
